@@ -10,7 +10,7 @@ LEVEL = 'exploration'
 RULE = ('precedence/associativity table read from doc/doc.md at run time; '
         'ALL ordered pairs of binary operator spellings in "a op1 b op2 c" '
         '(plain and with parentheses at both positions), all triples of one '
-        'representative per level, every prefix operator against every '
+        'representative per level (thorough: all triples of spellings and all quadruples of level representatives), every prefix operator against every '
         'binary operator on either side, postfix prime against prefix and '
         'binary operators, prefix pairs, alternative spellings, quantifier / '
         'LET / IF extents, comments and line breaks at every token boundary '
@@ -65,9 +65,27 @@ def tables():
 
 
 def shards(tier, seed):
-    return [dict(kind=k) for k in
-            ('pairs', 'pairs_paren', 'triples', 'prefix', 'postfix',
-             'extents', 'comments', 'flatten', 'split', 'nonsplit')]
+    out = [dict(kind=k) for k in
+           ('pairs', 'pairs_paren', 'triples', 'prefix', 'postfix',
+            'extents', 'comments', 'flatten', 'split', 'nonsplit')]
+    if tier == 'thorough':
+        levels, binprec, assoc, preprec = tables()
+        bins = [t for t in binprec if t != '\\in']
+        for o1 in bins:
+            out.append(dict(kind='alltriples', first=o1))
+        reps = _reps(levels, binprec)
+        for o1 in reps:
+            out.append(dict(kind='quads', first=o1))
+    return out
+
+
+def _reps(levels, binprec):
+    reps = []
+    for toks, a in levels:
+        ts = [t for t in toks if t in binprec and t != '\\in']
+        if ts:
+            reps.append(ts[0])
+    return reps
 
 
 def _bin_ops(binprec):
@@ -82,6 +100,18 @@ def cases(shard):
 
     def rhs(op, name):
         return ['1', '..', '2'] if op == '\\in' else [name]
+    if k == 'alltriples':
+        b2 = [t for t in bins if t != '\\in']
+        for o2, o3 in itertools.product(b2, repeat=2):
+            yield dict(kind='tok', toks=['a', shard['first'], 'b', o2, 'c',
+                                         o3, 'd'])
+        return
+    if k == 'quads':
+        reps = _reps(levels, binprec)
+        for o2, o3, o4 in itertools.product(reps, repeat=3):
+            yield dict(kind='tok', toks=['a', shard['first'], 'b', o2, 'c',
+                                         o3, 'd', o4, 'e'])
+        return
     if k == 'pairs':
         for o1, o2 in itertools.product(bins, repeat=2):
             if o1 == '\\in' and binprec[o2] > binprec[o1]:
